@@ -1,4 +1,4 @@
-SERVED = ["C01", "C03", "C05", "C06", "C07", "C08", "C10", "C12", "C15", "C13", "C14", "C16", "C17", "C18", "C19", "C20"]
+SERVED = ["C01", "C02", "C03", "C05", "C06", "C07", "C08", "C10", "C12", "C15", "C13", "C14", "C16", "C17", "C18", "C19", "C20"]
 HOOKS = {
     "guard": "PSYCHEC_VERIF",
     "enable": "harness/Makefile compiles /repo's sources with -DPSYCHEC_VERIF into /verif/.cache/build-<flavour>/; "
@@ -107,6 +107,19 @@ CHECKS = {
         "note": "Trusted: Coq kernel incl. vm_compute; hand-written cursor models C01Model.v; translate/recov.py (validated each run); extraction; harness; sanitizers (ASan+UBSan of g++ 12). "
                 "Runtime residue the model cannot exhibit: stack exhaustion, allocator behaviour, the productions' own progress. Print Assumptions: closed under the global context.",
         "technique": "Coq proofs by induction over arbitrary texts / token vectors for the cursor and counter models (one regenerated from the source) + correspondence; sanitizer exploration for the unmodelled productions",
+    },
+    "C02": {
+        "text": "PARTIAL. Theorem C02_resolve_total: for EVERY declaration graph of typedefs (a typedef's type may name any typedef, itself included, or an undefined name; any nesting of pointer/array/function/"
+                "qualified types) and every type, the model of TypedefNameTypeResolver::resolve with its under-resolution set terminates within an explicit bound and returns a type (the error type on a cycle); "
+                "C02_unguarded_resolve_diverges: without the set no amount of fuel suffices for `typedef T T;` (the hang of the pinned tree; the termination measure — unvisited names, then size — is what the repair "
+                "had to supply).  Everything else the property states — no crash in binder, canonicaliser, resolver and type checker on any unit the parser produced, and every symbol, scope and type reachable "
+                "through the semantic-model API being a live object — is explored: parse + computeSemanticModel + a full walk (every declarator's symbol and type, tag members, parameters, enumerators, fields, "
+                "TypeInfo of every expression, scopeOf and a lookup per identifier use, declaration and resolved type of every typedef-name type) on the test suite's units, mutants, generated typedef programs, "
+                "generated cyclic typedef graphs and incomplete programs, in the NDEBUG build and under ASan+UBSan with and without NDEBUG; failures are shrunk.",
+        "design_ref": "DESIGN.md section 6, C02",
+        "note": "Trusted: Coq kernel; hand-written model C02Model.v (immutable terms: the in-place rewriting and object ownership of the real code are outside it and were where two of the repaired defects lived); "
+                "extraction; harness walk; sanitizers. Print Assumptions: closed under the global context.",
+        "technique": "Coq termination proof with an explicit lexicographic measure for the typedef resolver over arbitrary (cyclic) declaration graphs + correspondence; sanitizer exploration with a full API walk for memory safety",
     },
     "C05": {
         "text": "PARTIAL. Theorem C05_punctuator_maximal_munch, over the punctuator cases of Lexer::yylex_CORE as regenerated from Lexer.cpp on this run (decision statements: kind assignment, yyinput(), "
